@@ -292,7 +292,7 @@ func c16Gen(r *Rand, tier string) []Case {
 	//    subsets of {a,b,c}
 	maxLen, engLen, nRand, nEng := 5, 2, 3000, 300
 	if tier == "thorough" {
-		maxLen, engLen, nRand, nEng = 6, 4, 300000, 6000
+		maxLen, engLen, nRand, nEng = 6, 3, 300000, 3000
 	}
 	var rec func(toks []string, op string, lim int)
 	rec = func(toks []string, op string, lim int) {
@@ -407,7 +407,7 @@ func c16Gen(r *Rand, tier string) []Case {
 func init() {
 	register(&Prop{
 		ID: "C16",
-		Rule: "exhaustive: every list of length 1..5 (thorough 1..6) over {a,b,c,any,!a,!b,!zz} x every subset of existing interfaces {a,b,c} through the verif hook, and of length 1..2 (thorough 1..4) through QueryRunner.Run on scratch database directories; seeded: longer lists (up to 40 elements) over 18 existing (incl. names that merely contain 'any') / 6 unknown names, their negations and spellings of 'any', 1 in 6 with a malformed element (empty, blank, '!', '!!a', 16 characters, non-ASCII, slash, newline); regexp arguments from a table of 41 patterns (valid, not compiling, not of the form /../) and random concatenations of pattern pieces, each with the regexp library's own match verdict per interface. Non-trivial: a well-formed list in which a negation removes an interface that would otherwise be selected and that also has a repeated element, 'any' or a name that does not exist; a regexp that matches some but not all interfaces. Distinct = distinct case lines.",
+		Rule: "exhaustive: every list of length 1..5 (thorough 1..6) over {a,b,c,any,!a,!b,!zz} x every subset of existing interfaces {a,b,c} through the verif hook, and of length 1..2 (thorough 1..3) through QueryRunner.Run on scratch database directories; seeded: longer lists (up to 40 elements) over 18 existing (incl. names that merely contain 'any') / 6 unknown names, their negations and spellings of 'any', 1 in 6 with a malformed element (empty, blank, '!', '!!a', 16 characters, non-ASCII, slash, newline); regexp arguments from a table of 41 patterns (valid, not compiling, not of the form /../) and random concatenations of pattern pieces, each with the regexp library's own match verdict per interface. Non-trivial: a well-formed list in which a negation removes an interface that would otherwise be selected and that also has a repeated element, 'any' or a name that does not exist; a regexp that matches some but not all interfaces. Distinct = distinct case lines.",
 		Gen:  c16Gen,
 		Run:  c16Run,
 		Init: func(string) error {
